@@ -607,9 +607,43 @@ def rel(path):
     return path
 
 
+DISPLAY_FIELDS = {'path', 'pretty', 'resolved_pretty', 'self_ty', 'trait_pretty', 'impl_self_ty', 'impl_trait_ref', 'ty',
+                  'arg_tys', 'args', 'fn_pretty', 'text', 'drop_ty', 'discr_ty', 'sig', 'trait_ref', 'predicates', 'unresolved',
+                  'array_of'}
+_NORM_RE = None
+
+
+def norm_path(p):
+    """display paths are printed through `std::` re-exports when std is linked and as `core::` / `alloc::` in a
+    no_std build (experimental-thread-local); compare them in one canonical spelling"""
+    global _NORM_RE
+    if _NORM_RE is None:
+        import re
+        _NORM_RE = re.compile(r'\b(?:core|alloc)::')
+    return _NORM_RE.sub('std::', p)
+
+
+def normalise(j):
+    if isinstance(j, dict):
+        for k, v in j.items():
+            if k in DISPLAY_FIELDS:
+                if isinstance(v, str):
+                    j[k] = norm_path(v)
+                elif isinstance(v, list) and all(isinstance(x, str) for x in v):
+                    j[k] = [norm_path(x) for x in v]
+                else:
+                    normalise(v)
+            else:
+                normalise(v)
+    elif isinstance(j, list):
+        for x in j:
+            normalise(x)
+    return j
+
+
 class Crate:
     def __init__(self, path):
-        self.j = json.load(open(path))
+        self.j = normalise(json.load(open(path)))
         self.name = self.j['crate']
         self.bodies = [Body(b, self) for b in self.j['bodies']]
         self.by_key = {b.key: b for b in self.bodies}
